@@ -443,8 +443,6 @@ def instances(spec):
     texts = ([spec.text] if spec.text is not None else []) + spec.more_texts
     for i, tx in enumerate(texts):
         out.append(("text#%d" % i, dns.rdata.from_text(spec.rdclass, t, tx)))
-        if i == 0 and has_names([spec.parts]) is False:
-            pass
     if texts and is_relative(spec.parts):
         out.append(("text-relativized", dns.rdata.from_text(spec.rdclass, t, texts[0], origin(), True)))
     for i, parts in enumerate([spec.parts] + spec.alts):
@@ -455,10 +453,9 @@ def instances(spec):
     base = mk(spec.rdclass, t, render(spec.parts))
     out.append(("to_generic", base.to_generic()))
     try:
-        kw = {}
         out.append(("replace", base.replace(rdcomment="c")))
     except Exception:
-        pass
+        pass   # replace() is C02/C05 territory; here it is only one more construction route
     return out
 
 
@@ -705,7 +702,6 @@ def run_value(case):
 
 
 # ------------------------------------------------------------------ (iii) record sets
-TTLS = (0, 5, 10)
 OWNER = "Www.Example."
 
 
@@ -731,6 +727,7 @@ PROFILES = {
 }
 
 _UNIVERSES = {}
+_IDS = {}
 
 
 def universe(profile):
@@ -752,8 +749,8 @@ def universe(profile):
 class Cfg:
     """(kind, profile, labels used as members, labels used as intruders)."""
 
-    def __init__(self, kind, profile, nkeys, ttls=(0, 5, 10)):
-        self.kind, self.profile, self.nkeys, self.ttls = kind, profile, nkeys, tuple(ttls)
+    def __init__(self, kind, profile, nkeys, ttls=(0, 5, 10), lean=False):
+        self.kind, self.profile, self.nkeys, self.ttls, self.lean = kind, profile, nkeys, tuple(ttls), lean
         P = PROFILES[profile]
         self.t = int(dns.rdatatype.from_text(P["rdtype"]))
         self.spec = sm.Spec(kind, IN, self.t, P["singleton"], P["sig"])
@@ -764,7 +761,7 @@ class Cfg:
         self.probe = labs + ["xt"]
 
     def tup(self):
-        return (self.kind, self.profile, self.nkeys, self.ttls)
+        return (self.kind, self.profile, self.nkeys, self.ttls, self.lean)
 
     def tag(self):
         return self.kind if self.kind == "set" else "%s:%s" % (self.kind, self.profile)
@@ -790,7 +787,7 @@ def new_env(cfg):
         u.add(xt, 1)
         env["U"] = u
         v = dns.rdataset.Rdataset(IN, cfg.t)
-        v.add(uni["b"][0], 10)
+        v.add(uni["b"][0], max(cfg.ttls))
         env["V"] = v
     else:
         env["L"] = [uni["b"][0], uni["A"][0], uni["b"][0]]
@@ -811,8 +808,9 @@ def spec_of(cfg, name):
 def snap(cfg, obj, probs=None):
     """Complete observable value of a real set: ordered items (as universe labels), ttl,
     covers."""
-    uni = universe(cfg.profile)
-    ids = {id(o): rec for o, rec in uni.values()}
+    ids = _IDS.get(cfg.profile)
+    if ids is None:
+        ids = _IDS[cfg.profile] = {id(o): rec for o, rec in universe(cfg.profile).values()}
     items = []
     for it in list(obj.items):
         rec = ids.get(id(it))
@@ -832,6 +830,8 @@ def canon_of(cfg, st):
 
 SYMBOL = {"|=": operator.ior, "&=": operator.iand, "-=": operator.isub, "^=": operator.ixor, "+=": operator.iadd,
           "|": operator.or_, "&": operator.and_, "-": operator.sub, "^": operator.xor, "+": operator.add}
+LEAN_INPLACE = ("|=", "union_update", "update", "^=", "&=", "-=")
+LEAN_COPYING = ("|", "^", "union", "&", "-")
 SLICES = [(0, 1, None), (1, None, None), (None, None, 2), (0, 0, None), (None, None, None), (1, 2, None)]
 
 
@@ -857,9 +857,15 @@ def events_for(cfg, env):
                 evs.append(["update_ttl", X, ttl])
         ys = [others[X], X] + (["U", "V"] if typed else [])
         for Y in ys:
+            if cfg.lean and Y == "V" and cfg.kind == "rdataset":
+                continue        # V only adds something for mixed kinds (quick tier)
             for op in sm.INPLACE:
+                if cfg.lean and Y in ("U", "V") and op not in LEAN_INPLACE:
+                    continue
                 evs.append(["iop", X, op, Y])
             for op in sm.COPYING:
+                if cfg.lean and Y in ("U", "V") and op not in LEAN_COPYING:
+                    continue
                 evs.append(["cop", X, op, Y])
         for how in ("copy", "copy.copy"):
             evs.append(["copy", X, how, X])
@@ -1429,15 +1435,17 @@ def run(ctx):
     # (iii)
     T3, T2 = (0, 5, 10), (0, 5)
     if ctx.quick:
-        cfgs = [("set", "plain", 2, ()), ("rdataset", "plain", 2, T3), ("rdataset", "single", 2, T3),
-                ("rdataset", "covers", 2, T2), ("rrset", "plain", 2, T2), ("rrset", "single", 2, T3),
-                ("rrset", "covers", 2, T2), ("immutable", "plain", 2, T2), ("immutable", "single", 2, T3)]
+        cfgs = [("set", "plain", 2, (), True), ("rdataset", "plain", 2, T3, True), ("rdataset", "single", 2, T3, True),
+                ("rdataset", "covers", 2, T2, True), ("rrset", "plain", 2, T2, True), ("rrset", "single", 2, T3, True),
+                ("rrset", "covers", 2, T2, True), ("immutable", "plain", 2, T2, True),
+                ("immutable", "single", 2, T3, True)]
     else:
-        cfgs = [("set", "plain", 3, ()), ("rdataset", "plain", 3, T3), ("rdataset", "single", 3, T3),
-                ("rdataset", "covers", 3, T3), ("rrset", "plain", 3, T3), ("rrset", "single", 3, T3),
-                ("rrset", "covers", 2, T3), ("immutable", "plain", 3, T2), ("immutable", "single", 3, T3),
-                ("immutable", "covers", 2, T3)]
-    ctx.extra["set_configs"] = [dict(zip(("kind", "profile", "distinct_member_keys", "ttl_domain"), c)) for c in cfgs]
+        cfgs = [("set", "plain", 3, (), False), ("rdataset", "plain", 3, T3, False), ("rdataset", "single", 3, T3, False),
+                ("rdataset", "covers", 3, T3, False), ("rrset", "plain", 3, T3, False), ("rrset", "single", 3, T3, False),
+                ("rrset", "covers", 2, T3, False), ("immutable", "plain", 3, T2, False),
+                ("immutable", "single", 3, T3, False), ("immutable", "covers", 2, T3, False)]
+    ctx.extra["set_configs"] = [dict(zip(("kind", "profile", "distinct_member_keys", "ttl_domain",
+                                          "reduced_alphabet_for_foreign_operands"), c)) for c in cfgs]
     ctx.extra["bfs_depth"] = "to saturation (no depth cap)"
     init = []
     for c in cfgs:
